@@ -7,6 +7,10 @@ def main(args):
                       functions=["emboss::support::EnumView::{Ok,IsComplete,Read,UncheckedRead,CouldWriteValue,TryToWrite} for signed and unsigned underlying types of 8/16/32/64 bits"])
     if isinstance(r, int):
         return r
+    from vlib import pool, core
+    pool.run_targets(r, "contracts.gate", ["_cpp_integer_type_for_enum"])
+    r.function("compiler.back_end.cpp.header_generator._cpp_integer_type_for_enum", "pyvc: smallest fixed-width type of the declared signedness, total on 1..64")
+    r.assume(*core.STANDING_ASSUMPTIONS["E1"])
     r.extra["not_covered"] = ["generated enum helpers (TryToGetEnumFromName, TryToGetNameFromEnum, EnumIsKnown): corpus checks",
                               "name_conversion: bounded check"]
     return r.finish()
